@@ -92,7 +92,7 @@ func runContentLookup(o *Out, r *rand.Rand, thorough bool, _ []string) {
 		}
 	}
 	// a wide network: far more peers answer than a result holds. The asker knows the 16 peers FARTHEST from the content;
-	// only the three farthest of those (asked last) name seven closer peers; the closest of all holds the content.
+	// only the three farthest of those (asked last) name the closer peers; the closest of all holds the content.
 	wide := 1
 	if thorough {
 		wide = 6
@@ -101,7 +101,7 @@ func runContentLookup(o *Out, r *rand.Rand, thorough bool, _ []string) {
 		mn := newMemNet()
 		key := []byte(fmt.Sprintf("cl-wide-%d-%d", wr, r.Intn(1000)))
 		idh := sha256.Sum256(key)
-		n := 24
+		n := 31 // the asker, 16 far peers, 14 closer ones: well above the 16 a result holds even if a few queries time out
 		nodes := make([]*realNode, n)
 		for i := range nodes {
 			nodes[i] = startNode(mn, r, nodeOpts{ip: net.IP{34, byte(100 + i), byte(wr), 1}, port: 9950 + i, utpLimit: 50})
